@@ -476,6 +476,12 @@ def rule_indent_plumbing(rep: Report, repo: Repo, rule: str) -> None:
                 ok = it_ok and v[2] == const("   ")
             elif v[0] == "binop" and v[1] == "*":
                 ok = (v[2] == const("   ") and v[3] == param) or (v[3] == const("   ") and v[2] == param)
+            elif v[0] == "call" and v[1] == ("attr", const(""), "join") and len(v[2]) == 1 and v[2][0][0] == "comp":
+                # "".join("   " for _ in range(n))
+                comp = v[2][0]
+                gens = comp[3]
+                ok = len(gens) == 1 and not gens[0][2] and comp[2] == const("   ") and \
+                    gens[0][1] in (("call", glob("range"), (const(0), param), ()), ("call", glob("range"), (param,), ()))
     rep.check(ok, rule, f"{MOD}:get_indents", desc, "get_indents(n) is not n copies of exactly three spaces: nested content is "
               "no longer aligned with the directive name", witness="any directive with content")
     gcall = lambda t: ("call", glob("get_indents"), (t,), ())
